@@ -1135,6 +1135,11 @@ impl TypeChecker {
         if matches!(expression, E::Read { var, .. } if self.defining.contains(var)) {
             return with_ret(expr_ret, expr);
         }
+        // A function literal is the function itself, not a use of it - a copy would cut the
+        // types of the variables it captures loose from the variables.
+        if matches!(expression, E::Function { .. }) {
+            return with_ret(expr_ret, expr);
+        }
         // TODO[ed]: Don't agressively copy function! D:
         match self.find_type(expr) {
             Type::Function { .. } => with_ret(expr_ret, self.copy(expr)),
